@@ -230,7 +230,8 @@ def check_eg(case):
             tiled[tiles] = np.tile(Xq, (tiles, 1))
         return eg.predict(tiled[tiles], random_state=seed)
 
-    _sample_check(predict, p, case["seeds"], f"ExponentiatedGradient({case['moment']}, lp={case['lp']})")
+    if not case.get("mixture_only"):
+        _sample_check(predict, p, case["seeds"], f"ExponentiatedGradient({case['moment']}, lp={case['lp']})")
     tags = ["moment:" + case["moment"], "lp" if case["lp"] else "no_lp"]
     if ((p > 0.05) & (p < 0.95)).any():
         tags.append("nt")
@@ -412,6 +413,20 @@ def _eg_case(draw, regression=False):
 
 
 @st.composite
+def _eg_mixture_case(draw):
+    """Many cheap fits biased towards runs whose weights_ index is not sorted (no LP step, large eta0): the
+    pmf must still be the label-aligned mixture.  No sampling in this sub-check."""
+    c = draw(_eg_case())
+    c["lp"] = draw(st.sampled_from([False, False, False, False, True]))
+    c["eta0"] = draw(st.sampled_from([8.0, 8.0, 32.0, 2.0]))
+    c["max_iter"] = draw(st.sampled_from([5, 10, 20, 40]))
+    c["nu"] = 1e-6
+    c["mixture_only"] = True
+    c["query_levels"] = [0, 1, 2, 3, 4]
+    return c
+
+
+@st.composite
 def _history_case(draw):
     if draw(st.booleans()):
         c = draw(_to_case())
@@ -430,6 +445,8 @@ SUBS = [
         floors={"nt": 0.03, "unseen_scores": 0.1}),
     Sub("eg_pmf_sampling", check_eg, strategy=_eg_case, quick=60, thorough=1500, shards=16, shrink_quick=False,
         floors={"nt": 0.05, "mixture>=2": 0.1}),
+    Sub("eg_mixture", check_eg, strategy=_eg_mixture_case, quick=400, thorough=8000, shards=16, shrink_quick=False,
+        floors={"weights_index_unsorted": 0.015, "mixture>=2": 0.2}),
     Sub("eg_regression_sampling", check_eg_regression, strategy=lambda: _eg_case(regression=True), quick=50, thorough=1200,
         shards=16, shrink_quick=False, floors={"nt": 0.08}),
     Sub("prediction_histories", check_history, strategy=_history_case, quick=80, thorough=2000, shards=16, shrink_quick=False,
